@@ -144,7 +144,7 @@ func gen(cs Case) *pipe.Workload {
 	thorough := cs.Tier == "thorough"
 	o := pipe.GenOpts{MaxInputs: 8, MaxLines: 2500, LongLines: true}
 	switch cs.Kind {
-	case "captures", "cli":
+	case "captures", "cli", "cli-color":
 		return genCaptures(r, false, thorough, 0)
 	case "reader-captures":
 		p := 0
@@ -200,6 +200,14 @@ func pinned(name string) *pipe.Workload {
 
 var pinnedNames = []string{"optional-groups", "growing-lines"}
 
+var colorMatchers = []pipe.MatcherSpec{
+	{Kind: "regex", Pattern: `(k(e)y)`}, {Kind: "regex", Pattern: `((i)(d))=`}, {Kind: "regex", Pattern: `(i(d(=)))`}, {Kind: "regex", Pattern: `(?P<x>k(e)y)=(\w+)`},
+	{Kind: "regex", Pattern: `(key)|(val)`}, {Kind: "regex", Pattern: `((key)=(\w+))`}, {Kind: "regex", Pattern: `(k)(e)(y)`}, {Kind: "regex", Pattern: `()key()`},
+	{Kind: "regex", Pattern: `(key)?=(\w*)`}, {Kind: "regex", Pattern: `(id=(\w+):(\d+))( key=(\w+))?`}, {Kind: "regex", Pattern: `(i)(d)(=)(f)(\d)(:)(\d+)( )(k)(e)(y)`},
+	{Kind: "regex", Pattern: `(((((k)e)y)=)(\w))`}, {Kind: "regex", Pattern: `(?P<a>i)(d)(?P<b>=(f))`}, {Kind: "regex", Pattern: `(\w+)=((\w)(\w*))`}, {Kind: "regex", Pattern: `((a)|(b))+`},
+	{Kind: "regex", Pattern: `(id)(=f\d:)((\d)\d*)`}, {Kind: "dissect", Pattern: `id=%{id} key=%{key} `}, {Kind: "dissect", Pattern: `%{a}=%{b}:%{c} `},
+}
+
 func Run(c *run.Ctx) {
 	if c.Replay != nil {
 		var cs Case
@@ -222,6 +230,7 @@ func Run(c *run.Ctx) {
 		{"aligned", c.N(12, 200)},
 		{"reader-aligned", c.N(6, 100)},
 		{"cli", c.N(24, 300)},
+		{"cli-color", c.N(18, 180)},
 	}
 	if c.Flavour != "plain" {
 		plans = []plan{{"captures", 500}, {"reader-captures", 120}, {"structured", 150}, {"raw", 150}, {"dissect-pool", 40}, {"aligned", 40}, {"reader-aligned", 20}}
@@ -281,7 +290,7 @@ func one(c *run.Ctx, cs Case) bool {
 		c.Inconclusive("generator produced a workload the reference cannot evaluate: " + err.Error())
 		return true
 	}
-	if cs.Kind == "cli" {
+	if cs.Kind == "cli" || cs.Kind == "cli-color" {
 		cli(c, cs, w, truth)
 		return true
 	}
@@ -345,6 +354,12 @@ func cli(c *run.Ctx, cs Case, w *pipe.Workload, truth []pipe.LineTruth) {
 	w.Matcher = capMatchers[cs.Index%len(capMatchers)] // every matcher kind/flag reaches the CLI wiring
 	r := run.NewRand(cs.Seed, "C02cli", cs.Index)
 	mode := []string{"default", "color", "lineno", "extract"}[cs.Index%4]
+	if cs.Kind == "cli-color" {
+		// group shapes for the highlighter of the default output: nested, adjacent, empty, optional,
+		// alternated, more than nine, named + numbered; "with colour codes removed the output is the line"
+		w.Matcher = colorMatchers[cs.Index%len(colorMatchers)]
+		mode = "color"
+	}
 	ordered := r.Intn(2) == 0
 	dir := filepath.Join(c.WorkDir, "cli")
 	os.RemoveAll(dir)
